@@ -41,6 +41,26 @@ def run(ctx):
     clause_d(ctx, fx)
     clause_e(ctx, fx)
     clause_f(ctx, fx)
+    clause_g(ctx, fx)
+
+
+def clause_g(ctx, fx):
+    """'…is accepted': what the holder signs into the key-binding JWT is what the verifier expects — the claim names it writes are the ones
+    the verifier reads, `aud` is written, and the sd_hash input has exactly the form the verifier recomputes (rule shared with C04.K4)"""
+    import c04
+    A = vmodel_anchors(ctx, fx)
+    if A is not None:
+        c04.k4(common.RelabelCtx(ctx, "C01.g", keep=("claim-names", "aud-written", "sd_hash")), fx, A)
+
+
+def vmodel_anchors(ctx, fx):
+    import vmodel
+
+    class Quiet:
+        def __getattr__(self, n):
+            return lambda *a, **k: None
+    A = vmodel.Anchors(Quiet(), fx, "C01.g")
+    return A if getattr(A, "ok", False) else None
 
 
 def clause_f(ctx, fx):
